@@ -112,12 +112,12 @@ theorem C01_finding_variant_ragged :
   ⟨_, _, rfl, rfl, rfl, rfl⟩
 
 /-- `[][]int32{nil, nil}`: `sliceDim` multiplies the "nil" count −1 of the inner slice by the outer length: array
-    length −2.  `Encode` writes `86 fe ff ff ff`, on which `Variant.Decode` panics (the witness of C02.variant-neg-len
-    is produced by the library's own constructor and encoder) -/
+    length −2.  `Encode` writes `86 fe ff ff ff`, which `Variant.Decode` rejects (before the repair of
+    C02.variant-neg-len it panicked on these bytes, produced by the library's own constructor and encoder) -/
 theorem C01_finding_variant_nil_inner_slice :
     ∃ m, newVariant ⟨6, 2⟩ (.slice false [.slice true [], .slice true []]) = .ok m ∧
       encode env 3 .variant m = .ok [0x86, 0xfe, 0xff, 0xff, 0xff] ∧
-      decode env 3 .variant ⟨[0x86, 0xfe, 0xff, 0xff, 0xff], 0⟩ = .fail .panicNegLen ∧
+      decode env 3 .variant ⟨[0x86, 0xfe, 0xff, 0xff, 0xff], 0⟩ = .fail .err ∧
       wt env 3 .variant m = false :=
   ⟨_, rfl, rfl, rfl, rfl⟩
 
